@@ -135,7 +135,20 @@ def runSig (r : ObsRun) (o : SimOut OState) : List String :=
 def dedup (l : List String) : List String :=
   l.foldl (fun acc s => if acc.contains s then acc else acc ++ [s]) []
 
-def run (cases : List CaseBlock) (_args : List String) : IO Unit := do
+def evStr (e : SimEvent) : String :=
+  let k := match e.event with
+    | .normalRecv => "nr" | .paddingRecv => "pr" | .tunnelRecv => "tr" | .normalSent => "ns"
+    | .paddingSent m => s!"ps:{m}" | .tunnelSent => "ts" | .blockingBegin m => s!"bb:{m}"
+    | .blockingEnd => "be" | .timerBegin m => s!"tb:{m}" | .timerEnd m => s!"te:{m}"
+  s!"{e.time} {if e.client then "c" else "s"} {k} {if e.containsPadding then 1 else 0} {if e.bypass then 1 else 0} {if e.replace then 1 else 0}"
+
+def actStr : TAction → String
+  | .cancel m t => s!"Cancel(m{m},{repr t})"
+  | .sendPadding to b r m => s!"Pad(m{m},to={to}us,b={b},r={r})"
+  | .blockOutgoing to d b r m => s!"Block(m{m},to={to}us,dur={d}us,b={b},r={r})"
+  | .updateTimer d r m => s!"Timer(m{m},dur={d}us,r={r})"
+
+def run (cases : List CaseBlock) (args : List String) : IO Unit := do
   for c in cases do
     match parseCase c with
     | .error e => IO.println s!"case {c.id} {c.kind} PARSE {e}"
@@ -157,6 +170,10 @@ def run (cases : List CaseBlock) (_args : List String) : IO Unit := do
               diffs := diffs ++ [s!"{r.run.name}:oracle first=0"]
           | none => pure ()
         sigs := sigs ++ runSig r o
+        if args.contains "dump" then
+          IO.println s!"dump {c.id} run {r.run.name} stop={repr o.stop}"
+          for x in o.stream do
+            IO.println s!"  {evStr (SimEvent.shift t0 x.ev)} net={x.net} {String.intercalate " " (x.acts.map actStr)}"
         nev := nev + (match r.res with | .ok t => t.length | _ => 0)
         models := models ++ [(r, o, t0)]
       if diffs.isEmpty then
